@@ -186,6 +186,13 @@ var c11PlainQueries = []string{
 	"WITH c AS (SELECT id, n FROM t) SELECT v FROM `c.n`",
 	"SELECT * FROM (SELECT id, a FROM t) d",
 	"SELECT * FROM t x JOIN u y ON x.id = y.id",
+	// USING: the joined row repeats the column on both sides; the sides are the caller's rows
+	"SELECT * FROM t x JOIN u y USING (id)",
+	"SELECT * FROM t x LEFT JOIN u y USING (id)",
+	"SELECT * FROM t x RIGHT JOIN u y USING (id)",
+	"SELECT * FROM t x PARALLEL JOIN u y USING (id)",
+	"SELECT x.id, y.b FROM t x HASH_JOIN u y USING (id)",
+	"SELECT * FROM (SELECT id, a FROM t) x JOIN u y USING (id)",
 	"SELECT * FROM t x LEFT JOIN u y ON x.id = y.id",
 	"SELECT * FROM t x PARALLEL JOIN u y ON x.id = y.id",
 	"SELECT * FROM t x HASH_JOIN u y ON x.id = y.id",
